@@ -6,6 +6,7 @@
 package didnuts
 
 import (
+	"encoding/json"
 	mrand "math/rand"
 	"os"
 	"strings"
@@ -13,6 +14,7 @@ import (
 
 	"github.com/lestrrat-go/jwx/v2/jwk"
 	"github.com/nuts-foundation/go-did/did"
+	"github.com/nuts-foundation/nuts-node/vdr/resolver"
 )
 
 const c19NutsDocTmpl = `{"@context":["https://www.w3.org/ns/did/v1","https://w3id.org/security/suites/jws-2020/v1"],
@@ -35,8 +37,19 @@ func TestVerifC19(t *testing.T) {
 	r := mrand.New(mrand.NewSource(c19Seed()*67867967 + 13))
 	m := jmut{r}
 
+	// the first steps of ambassador.callback on a network payload: null-entry guard on the raw JSON, then json.Unmarshal (go-did)
+	parseLikeCallback := func(in string) (*did.Document, error) {
+		if err := resolver.RejectNullKeyEntries([]byte(in)); err != nil {
+			return nil, err
+		}
+		var doc did.Document
+		if err := json.Unmarshal([]byte(in), &doc); err != nil {
+			return nil, err
+		}
+		return &doc, nil
+	}
 	path := func(in string) string {
-		doc, err := did.ParseDocument(in)
+		doc, err := parseLikeCallback(in)
 		if err != nil {
 			return "err:parse"
 		}
@@ -53,7 +66,7 @@ func TestVerifC19(t *testing.T) {
 	}
 	validatedThenLookup := func(in string) string {
 		// only documents the network validator ACCEPTS reach the store; the lookup must not panic on any of them
-		doc, err := did.ParseDocument(in)
+		doc, err := parseLikeCallback(in)
 		if err != nil {
 			return "err:parse"
 		}
@@ -65,7 +78,33 @@ func TestVerifC19(t *testing.T) {
 		}
 		return "ok"
 	}
-	eps := map[string]func(string) string{"didnuts.validate+findKeyByThumbprint": path, "didnuts.accepted-doc-then-findKeyByThumbprint": validatedThenLookup}
+	// the validator on documents that did NOT pass the raw-JSON guard (other sources: built programmatically, parsed elsewhere):
+	// nil entries are planted after parsing
+	validateWithNilEntries := func(in string) string {
+		doc, err := parseLikeCallback(in)
+		if err != nil {
+			return "err:parse"
+		}
+		res := "ok"
+		for variant := 0; variant < 4; variant++ {
+			d := *doc
+			switch variant {
+			case 0:
+				d.VerificationMethod = append(did.VerificationMethods{nil}, d.VerificationMethod...)
+			case 1:
+				d.VerificationMethod = append(append(did.VerificationMethods{}, d.VerificationMethod...), nil)
+			case 2:
+				d.CapabilityInvocation = append(did.VerificationRelationships{{}}, d.CapabilityInvocation...)
+			case 3:
+				d.AssertionMethod = append(append(did.VerificationRelationships{}, d.AssertionMethod...), did.VerificationRelationship{})
+			}
+			if err := NetworkDocumentValidator().Validate(d); err == nil {
+				res = "ACCEPTED-NIL-ENTRY"
+			}
+		}
+		return res
+	}
+	eps := map[string]func(string) string{"didnuts.Validate(nil entries planted)": validateWithNilEntries, "didnuts.validate+findKeyByThumbprint": path, "didnuts.accepted-doc-then-findKeyByThumbprint": validatedThenLookup}
 
 	replay, isReplay := c19ReadOps()
 	for _, op := range replay {
